@@ -85,6 +85,7 @@ func TestPolicy(t *testing.T) {
 			manyHeaders := false
 			decoy := ""
 			methodAbsent := false
+			var qualifiedNoCache []string
 			nvar := c.Int("nvariations", 0, 3)
 			for i := 0; i < nvar; i++ {
 				kind := c.PickStr("variation", "validity", "lifetime", "integrity", "foreign-integrity", "number-overflow", "two-signatures", "decoy-signature", "many-headers", "method", "method-absent", "req-header", "resp-header", "content-type", "cache-control", "expires-header", "status")
@@ -264,6 +265,25 @@ func TestPolicy(t *testing.T) {
 					for j := 0; j < n; j++ {
 						parts = append(parts, c.PickDict("cc.dir", dirs, `^[a-z][a-z0-9-]{1,24}$`))
 					}
+					if c.Chance("cc.qualifiedNoCache", 1, 4) {
+						// no-cache="field": names a field of THIS response; whatever the verifier makes of it
+						// must not outlive the verification (the named field is harmless in other responses)
+						var nm string
+						switch c.Pick("cc.qnc.class", 3) {
+						case 0:
+							nm = "X-Plain"
+						case 1:
+							nm = lookalikeResp[c.Pick("cc.qnc.look", len(lookalikeResp))]
+						default:
+							nm = bannedReq[c.Pick("cc.qnc.cross", len(bannedReq))]
+						}
+						if c.Bool("cc.qnc.lower") {
+							nm = strings.ToLower(nm)
+						}
+						qualifiedNoCache = append(qualifiedNoCache, nm)
+						parts = append(parts, `no-cache="`+nm+`"`)
+						c.Probe("Cache-Control: no-cache naming a harmless field")
+					}
 					if c.Chance("cc.unbalancedQuote", 1, 8) {
 						// a quoted-string that never ends - as the LAST directive, where the reference and
 						// a comma-splitting parser read the directives before it alike
@@ -297,6 +317,40 @@ func TestPolicy(t *testing.T) {
 			}
 			if methodAbsent {
 				p.Method = "" // (whatever a later "method" variation chose for the publisher's object)
+			}
+			// A response that carries a field its own no-cache directive names is outside the
+			// property's list of conditions (RFC 7234 5.2.2.2, a documented TODO of the
+			// repository): such a field is dropped from this response, so the verdict is decided.
+			if len(qualifiedNoCache) > 0 {
+				named := func(n string) bool {
+					for _, q := range qualifiedNoCache {
+						if strings.EqualFold(q, n) {
+							return true
+						}
+					}
+					return false
+				}
+				var hs []gen.HV
+				for _, h := range l.RespHeaders {
+					if !named(h.Name) {
+						hs = append(hs, h)
+					}
+				}
+				l.RespHeaders = hs
+				var ev []string
+				for _, n := range l.EmptyValued {
+					if !named(n) {
+						ev = append(ev, n)
+					}
+				}
+				l.EmptyValued = ev
+				var rn []string
+				for _, n := range p.RespHeaderNames {
+					if !named(n) {
+						rn = append(rn, n)
+					}
+				}
+				p.RespHeaderNames = rn
 			}
 			p.Date, p.Expires = l.Date, l.Expires
 			for _, h := range l.ReqHeaders {
@@ -440,7 +494,7 @@ func TestPolicy(t *testing.T) {
 			// history on ONE object: the publisher edits the exchange it has just verified -
 			// one response header renamed, the number of headers unchanged - signs it again
 			// and verifies again; the verdict must be the new policy's, not a remembered one
-			if c.Bool("editAndReverify") && integrityEdit == "" && overflowEdit == "" && !twoSignatures && decoy == "" && !methodAbsent {
+			if c.Bool("editAndReverify") && integrityEdit == "" && overflowEdit == "" && !twoSignatures && decoy == "" && !methodAbsent && len(qualifiedNoCache) == 0 {
 				var names []string
 				for _, k := range core.SortedKeys(map[string][]string(pub.ResponseHeaders)) {
 					lk := strings.ToLower(k)
